@@ -83,3 +83,95 @@ Definition fgetid (T : trie) (q : key) : res (option nat) :=
           else Ok (Some id)
       end
   end.
+
+(* ---- searchID on ids (trie/slimtrie_query.go: searchID, leftMost, rightMost) ---- *)
+
+(* number of labels below [lb] and whether [lb] itself is a label: Rank128 on the label bitmap *)
+Fixpoint label_rank_lt (lb : nat) (labels : list nat) : nat * bool :=
+  match labels with
+  | [] => (0, false)
+  | x :: r => if x <? lb then let '(n, h) := label_rank_lt lb r in (S n, h)
+              else (0, Nat.eqb x lb)
+  end.
+
+Fixpoint fleftmost (fuel : nat) (r : tree) (id : nat) : res nat :=
+  match fuel with
+  | 0 => Err EFuel
+  | S f => match node_at r id with
+           | None => Err (EPanic 22)
+           | Some (Leaf _ _ _ _) => Ok id
+           | Some (Inner _ _ _ _ fc _) => fleftmost f r fc
+           end
+  end.
+
+Fixpoint frightmost (fuel : nat) (r : tree) (id : nat) : res nat :=
+  match fuel with
+  | 0 => Err EFuel
+  | S f => match node_at r id with
+           | None => Err (EPanic 23)
+           | Some (Leaf _ _ _ _) => Ok id
+           | Some (Inner _ _ _ _ fc ch) => frightmost f r (fc + length ch - 1)
+           end
+  end.
+
+(* searchID's loop: (lID, eq (id, position, visited), rID); -1 is None *)
+Fixpoint fsearch_down (fuel : nat) (r : tree) (qn : list nat) (l id i : nat) (lc rc : option nat)
+  : res (option nat * option (nat * nat * bool) * option nat) :=
+  match fuel with
+  | 0 => Err EFuel
+  | S f =>
+      match node_at r id with
+      | None => Err (EPanic 24)
+      | Some (Leaf _ _ _ _) => Ok (lc, Some (id, i, true), rc)
+      | Some (Inner _ big step pfx fc ch) =>
+          match advance3 qn l i step pfx with
+          | ALt => Ok (lc, None, Some id)
+          | AGt => Ok (Some id, None, rc)
+          | AEq i1 =>
+              let '(n, has) := label_rank_lt (label_at big qn i1) (map fst ch) in
+              (* leftChild = fc + n - 1, chID = leftChild + has, rightChild = chID + 1;
+                 candidates are kept when they lie within [fc, fc + |ch| - 1] *)
+              let lc' := if 0 <? n then Some (fc + n - 1) else lc in
+              let right := if has then fc + n + 1 else fc + n in
+              let rc' := if right <? fc + length ch then Some right else rc in
+              if has then
+                if Nat.eqb i1 l then Ok (lc', Some (fc + n, i1, false), rc')
+                else fsearch_down f r qn l (fc + n) (i1 + wsize big) lc' rc'
+              else Ok (lc', None, rc')
+          end
+      end
+  end.
+
+Definition fsearchid (T : trie) (q : key) : res (option nat * option nat * option nat) :=
+  match t_root T with
+  | None => Ok (None, None, None)
+  | Some r =>
+      let qn := nibs q in
+      let l := length qn in
+      let h := S (height r) in
+      do d <- fsearch_down h r qn l 0 0 None None;
+      let '(lc, eq, rc) := d in
+      do d2 <-
+        match eq with
+        | None => Ok (lc, None, rc)
+        | Some (id, i, visited) =>
+            if i <=? l then
+              match node_at r id with
+              | None => Err (EPanic 25)
+              | Some c =>
+                  let cmp := if t_leafpfx T
+                             then bytes_cmp (skipn (i / 2) q) (match sess_tail c visited with Some t => t | None => [] end)
+                             else Eq in
+                  match cmp with
+                  | Lt => Ok (lc, None, Some id)
+                  | Gt => Ok (Some id, None, rc)
+                  | Eq => Ok (lc, Some id, rc)
+                  end
+              end
+            else Ok (lc, Some id, rc)
+        end;
+      let '(lc2, eq2, rc2) := d2 in
+      do lres <- match lc2 with None => Ok None | Some x => do y <- frightmost h r x; Ok (Some y) end;
+      do rres <- match rc2 with None => Ok None | Some x => do y <- fleftmost h r x; Ok (Some y) end;
+      Ok (lres, eq2, rres)
+  end.
